@@ -224,7 +224,8 @@ Proof.
   unfold evalL, pchip_coeffs_with, derivs_with.
   cbn [diffs secants map2 a_sub a_div R_arith rev app interior end_slope coeffs eval_pieces].
   change (a_leb ar) with Rleb. rdec2.
-  unfold horner, coeff, limit_endpoint_src, endpoint_slope, interior_slope, whm, c0, c1, c2, c3.
+  unfold horner, coeff, limit_endpoint_src, interior_slope. rewrite ?same_sign_mask_R, ?opp_sign_mask_R.
+  unfold endpoint_slope, whm, c0, c1, c2, c3.
   cbn [a_add a_sub a_mul a_div a_ofZ a_ltb a_leb a_abs R_arith].
   rdec2. cbn [andb]. lra.
 Qed.
@@ -234,7 +235,8 @@ Proof.
   unfold evalL, pchip_coeffs_with, derivs_with.
   cbn [diffs secants map2 a_sub a_div R_arith rev app interior end_slope coeffs eval_pieces].
   change (a_leb ar) with Rleb. rdec2.
-  unfold horner, coeff, limit_endpoint_fixed, a_neqb, a_sign, endpoint_slope, interior_slope, whm, c0, c1, c2, c3.
+  unfold horner, coeff, limit_endpoint_fixed, interior_slope. rewrite ?same_sign_mask_R, ?opp_sign_mask_R.
+  unfold a_neqb, a_sign, endpoint_slope, whm, c0, c1, c2, c3.
   cbn [a_add a_sub a_mul a_div a_ofZ a_ltb a_leb a_eqb a_abs R_arith].
   rdec2. cbn [andb negb]. rdec2. cbn [andb negb]. lra.
 Qed.
